@@ -92,6 +92,11 @@ class BundleContainer(object):
                 pri.fragment_offset,
                 pri.total_app_data_len,
             ]
+            # fragments at the same offset differ by their payload length
+            pyld_blk = self._block_num.get(Bundle.BLOCK_NUM_PAYLOAD)
+            pyld_data = pyld_blk.getfieldval('btsd') if pyld_blk is not None else None
+            if pyld_data is not None:
+                ident.append(len(pyld_data))
         return tuple(ident)
 
     def _block_types(self, key: BlockType) -> List[CanonicalBlock]:
